@@ -51,7 +51,7 @@ print("\n#### Results before the strengthening they triggered (seeded/PRE.txt; h
 print("| patch | check | result |")
 print("|---|---|---|")
 for l in parse(f'{ROOT}/seeded/PRE.txt'):
-    m=re.match(r'\S+ PRE-STRENGTHENING(\(round3\))? check=(\S+) patch=(\S+) (\S*)\s*(.*)',l)
+    m=re.match(r'\S+ PRE-STRENGTHENING(\(round\d\))? check=(\S+) patch=(\S+) (\S*)\s*(.*)',l)
     if not m: continue
     _,chk,patch,rc,rest=m.groups()
     sid=re.sub(r'.*/seed-(C\d+)/SEED_OUT(\d*)/patch.diff', lambda k: k.group(1)+('-'+k.group(2) if k.group(2) else ''), patch)
